@@ -882,6 +882,8 @@ var bodyTexts = []string{
 	"Hi ", " and ", "Total: ", ", thanks!", " ", "bob@nyaruka.com ", " @@ ", "100% (sure) ", ` say "x" `, ` back\slash `, "\n",
 	" é 日本 ", " @@flow.q1 ", " @twitter_handle ", " ) ( ", "@@", " a @ b ", "! ", ": ", "; x", " @nyaruka, ",
 	// '@' followed by names that are not legacy top-levels, in every letter case (mentions, e-mail domains): literal text
+	// the legacy escape '@@' in front of words that are top-levels only in the NEW syntax (and of legacy ones)
+	" @@input ", " @@results.q1 ", "bob@@results.org ", " @@fields.age ", " @@webhook ", " @@urns.tel, ", " @@RUN ", " @@trigger.params ", " @@node @@resume @@ticket @@globals.x @@legacy_extra ", " @@contact.name @@step.value ",
 	"Bob.Smith@Nyaruka.COM ", " @NyarukaHQ ", " @Twitter_Handle, ", " mail Jo@Example.Org now ", " @Ünïcode ", " @İstanbul ", " @CONTACTS ", " @Flowers.Red ", " @Stepper ", " @ΣΊΣΥΦΟΣ ", " @ǅ ", " X@Y.Z ",
 }
 
